@@ -8,7 +8,8 @@
 //   written  number of rtosc_arg_val_t the scanner wrote when asked for `count` values: the cell
 //            block has exactly `count` cells followed by nothing (a scanner that writes more is
 //            caught by ASan); cells are pre-filled with a sentinel and counted afterwards
-//   rd/len   bytes consumed by rtosc_scan_arg_vals / strlen(text)
+//   rd/len   bytes consumed by rtosc_scan_arg_vals / strlen(text); for the printed text (R2) `ok` when the two
+//            are equal (how long the printed text is, is not observed)
 //   V        the cells, as in harness/pretty.cpp (floats as bit patterns, booleans with their payload:
 //            `T1` = type 'T' with val.T == 1, `F0` = type 'F' with val.T == 0)
 //   P        rtosc_print_arg_vals(cells, default options), then the same on the printed text;
@@ -75,7 +76,10 @@ static bool count_scan(const char *text, Scanned &sc, std::ostringstream &o, con
     size_t rd = rtosc_scan_arg_vals(text, sc.cells, (size_t)count, sc.strbuf, SBS);
     int written = 0;
     for (int i = 0; i < count; ++i) if (sc.cells[i].type != SENTINEL) ++written;
-    o << " W" << sfx << " " << written << " R" << sfx << " " << rd << "/" << strlen(text) << " V" << sfx;
+    o << " W" << sfx << " " << written << " R" << sfx << " ";
+    // the length of the *printed* text is the printer's business: only "consumed entirely" is observed there
+    if (*sfx && rd == strlen(text)) o << "ok"; else o << rd << "/" << strlen(text);
+    o << " V" << sfx;
     for (int i = 0; i < count; ++i) o << " " << cell(sc.cells[i]);
     return true;
 }
